@@ -44,6 +44,7 @@ type defScn struct {
 		Leaf string `json:"leaf"`
 		N    int    `json:"n"`
 		Unit string `json:"unit"`
+		Pre  string `json:"pre"`
 	} `json:"scn"`
 	Dep struct {
 		K       string `json:"k"`
@@ -62,6 +63,7 @@ type defScn struct {
 	Fs381   int `json:"fs381"`
 	Mid381  int `json:"mid381"`
 	WantMid int `json:"wantmid381"`
+	WantPre int `json:"wantpre381"`
 	Lh381   int `json:"lh381"`
 	Want381 int `json:"want381"`
 }
@@ -104,6 +106,10 @@ func c04Doc(prop string, kinds []string, explicit string) string {
 			return prop + ":initial"
 		case "explicit":
 			return prop + ":" + explicit
+		case "unset":
+			return prop + ":unset"
+		case "ivar":
+			return prop + ":var(--verif-undefined)"
 		}
 		return ""
 	}
@@ -407,7 +413,11 @@ func c04FsDecl(d string) string {
 
 func c04Units(s *defScn, line []byte, out *drv.Out) {
 	sc := s.Scn
-	doc := fmt.Sprintf(`<html style="%s"><body style="%s"><p style="%swidth:%d%s">x</p></body></html>`, c04FsDecl(sc.Root), c04FsDecl(sc.Mid), c04FsDecl(sc.Leaf), sc.N, sc.Unit)
+	pre := ""
+	if sc.Pre != "" && sc.Pre != "none" {
+		pre = "height:2" + sc.Pre + ";"
+	}
+	doc := fmt.Sprintf(`<html style="%s"><body style="%s"><p style="%s%swidth:%d%s">x</p></body></html>`, c04FsDecl(sc.Root), c04FsDecl(sc.Mid), c04FsDecl(sc.Leaf), pre, sc.N, sc.Unit)
 	n, err := c04Styles(doc)
 	if err != nil {
 		out.Fatal(err.Error())
@@ -415,12 +425,26 @@ func c04Units(s *defScn, line []byte, out *drv.Out) {
 	}
 	st := n.sf.Get(n.nodes[2], "")
 	out.Count("units")
+	// font-relative units are measured on the font: 1e-3 relative
+	tol := 1e-4
+	if sc.Unit == "ex" || sc.Unit == "ch" {
+		tol = 1e-3
+	}
+	if pre != "" {
+		// the other font-relative length is computed first
+		h := st.GetHeight()
+		if h.Unit != pr.Px || math.Abs(float64(h.Value)*381-float64(s.WantPre)) > 1e-3*float64(s.WantPre)+0.5 {
+			out.Disagree("units:"+sc.Pre, fmt.Sprintf("%s: height computes to %v (unit %v), CSS requires %g px", doc, h.Value, h.Unit, float64(s.WantPre)/381),
+				map[string]interface{}{"doc": doc, "got_px": h.Value, "want_px": float64(s.WantPre) / 381})
+			return
+		}
+	}
 	w := st.GetWidth()
 	fs := st.GetFontSize()
 	gotW := float64(w.Value) * 381
 	gotFs := float64(fs.Value) * 381
-	if w.Unit != pr.Px || math.Abs(gotW-float64(s.Want381)) > 1e-4*float64(s.Want381)+0.5 {
-		out.Disagree("units:"+sc.Unit, fmt.Sprintf("%s: width computes to %v (unit %v), CSS requires %g px", doc, w.Value, w.Unit, float64(s.Want381)/381),
+	if w.Unit != pr.Px || math.Abs(gotW-float64(s.Want381)) > tol*float64(s.Want381)+0.5 {
+		out.Disagree("units:"+sc.Unit+c04After(sc.Pre), fmt.Sprintf("%s: width computes to %v (unit %v), CSS requires %g px", doc, w.Value, w.Unit, float64(s.Want381)/381),
 			map[string]interface{}{"doc": doc, "got_px": w.Value, "want_px": float64(s.Want381) / 381})
 		return
 	}
@@ -461,7 +485,7 @@ func c04Units(s *defScn, line []byte, out *drv.Out) {
 				got["transform-translate"] = math.NaN()
 			}
 			for name, g := range got {
-				if !(math.Abs(g-want) <= 1e-4*want+0.002) {
+				if !(math.Abs(g-want) <= tol*want+0.002) {
 					out.Disagree("units:shared-declaration:"+name, fmt.Sprintf("%s: %s on %s computes to %g px, CSS requires %g px (access order %v)", doc2, name, []string{"html", "body", "p"}[node], g, want, idx),
 						map[string]interface{}{"doc": doc2, "prop": name, "got": g, "want": want})
 					return
@@ -474,6 +498,13 @@ func c04Units(s *defScn, line []byte, out *drv.Out) {
 			return
 		}
 	}
+}
+
+func c04After(pre string) string {
+	if pre == "" || pre == "none" {
+		return ""
+	}
+	return ":after-" + pre
 }
 
 func mustParseDecls(text string) []parser.Compound { return parser.ParseBlocksContentsString(text) }
